@@ -14,7 +14,7 @@ from . import dyn
 ID = "C10"
 LEVEL = "model_checking"
 RULE = ("every connected labelled multigraph topology of the listed levels x kind assignment over {R,C,L,ideal V,ideal I} "
-        "with 1..3 reactive elements and 1..2 sources x orientation x id scheme (ascending, descending and interleaved names, "
+        "with 1..3 reactive elements and 1..2 sources (plus, at the 5-branch levels, the family with exactly one source and two reactive elements of the same kind) x orientation x id scheme (ascending, descending and interleaved names, "
         "so that listing order and alphabetical order of sources, inductors and capacitors disagree in every way; all id "
         "permutations at the small levels) with the ground rotating over the nodes; judged when the characteristic polynomial "
         "(exact, per class) has full degree and no root at 0; for each circuit every source column and every output "
@@ -30,8 +30,11 @@ def budget_s(tier):
     return 400 if tier == "quick" else 3600
 
 
-LEVELS_QUICK = [(2, 2, "perm"), (2, 3, "perm"), (3, 3, "perm"), (3, 4, "three")]
-LEVELS_THOROUGH = [(2, 2, "perm"), (2, 3, "perm"), (3, 3, "perm"), (3, 4, "perm"), (4, 4, "three"), (4, 5, "two")]
+# (nodes, branches, id mode, kind filter, orientation mode)
+LEVELS_QUICK = [(2, 2, "perm", "admissible", "all"), (2, 3, "perm", "admissible", "all"), (3, 3, "perm", "admissible", "all"), (3, 4, "three", "admissible", "all"),
+                (3, 5, "three", "twin", "two"), (4, 5, "two", "twin", "two")]
+LEVELS_THOROUGH = [(2, 2, "perm", "admissible", "all"), (2, 3, "perm", "admissible", "all"), (3, 3, "perm", "admissible", "all"), (3, 4, "perm", "admissible", "all"),
+                   (3, 5, "perm", "twin", "all"), (4, 4, "three", "admissible", "all"), (4, 5, "three", "twin", "all"), (4, 5, "two", "admissible", "two")]
 
 
 def id_lists(b, mode):
@@ -45,30 +48,31 @@ def id_lists(b, mode):
 
 def shards(tier):
     out = []
-    for (n, b, mode) in (LEVELS_QUICK if tier == "quick" else LEVELS_THOROUGH):
+    for (n, b, mode, filt, om) in (LEVELS_QUICK if tier == "quick" else LEVELS_THOROUGH):
         topos = sp.topologies(n, b)
-        allk = [kt for kt in itertools.product(dyn.DK, repeat=b) if dyn.admissible(kt)]
-        per = max(1, 200 // (2 ** b * len(id_lists(b, mode))))
+        allk = dyn.kind_tuples(b, filt)
+        per = max(1, 200 // (len(dyn.orientations(b, om)) * len(id_lists(b, mode))))
         for ti in range(len(topos)):
             for ch in sp.chunks(range(len(allk)), per):
-                out.append(("RLC(%d,%d)|ids:%s" % (n, b, mode), (n, b, ti, ch[0], ch[-1] + 1, mode)))
+                out.append(("RLC(%d,%d)|ids:%s|kinds:%s|orient:%s" % (n, b, mode, filt, om), (n, b, ti, ch[0], ch[-1] + 1, mode, filt, om)))
     return out
 
 
 def run_shard(desc):
-    n, b, ti, k0, k1, mode = desc
+    n, b, ti, k0, k1, mode, filt, om = desc
     res = new_result()
     topo = sp.topologies(n, b)[ti]
-    allk = [kt for kt in itertools.product(dyn.DK, repeat=b) if dyn.admissible(kt)]
+    allk = dyn.kind_tuples(b, filt)
     idl = id_lists(b, mode)
+    orients = dyn.orientations(b, om)
     for kt in allk[k0:k1]:
-        nvar = (2 ** b) * len(idl)
+        nvar = len(orients) * len(idl)
         res["evals"] += nvar
         ok, why = dyn.class_non_degenerate(topo, kt)
         if not ok:
             bump(res["skipped"], why, nvar)
             continue
-        for orient in range(2 ** b):
+        for orient in orients:
             for ii, ids in enumerate(idl):
                 d = dyn.build(topo, kt, orient, ids, (orient + ii) % n)
                 judge(d, res)
